@@ -1071,10 +1071,25 @@ where
             result = result.append(child_doc.group());
             seen_cond = true;
         } else if !seen_then && seen_cond {
-            // This is the then branch - use softline before to allow breaking
-            result = result
-                .append(allocator.softline())
-                .append(child_doc.group());
+            // This is the then branch - use softline before to allow breaking.
+            // A then branch that starts with `(` or `[` has to stay on a line of its own: on the
+            // condition's line it would be read as a call / index applied to the condition
+            let starts_with_bracket = matches!(
+                first_token_kind(child, ctx),
+                Some(TokenKind::ParenBegin | TokenKind::ArrayBegin)
+            );
+            result = if starts_with_bracket {
+                result.append(
+                    allocator
+                        .hardline()
+                        .append(child_doc.group())
+                        .nest(get_indent_size() as isize),
+                )
+            } else {
+                result
+                    .append(allocator.softline())
+                    .append(child_doc.group())
+            };
             seen_then = true;
         } else if seen_else {
             // This is the else branch (could be nested IfExpr for else if)
@@ -1083,6 +1098,18 @@ where
     }
 
     result.group()
+}
+
+/// The kind of the first token of a node
+fn first_token_kind(node_id: GreenNodeId, ctx: &PrintContext) -> Option<TokenKind> {
+    match ctx.arena.get(node_id) {
+        mimium_lang::compiler::parser::green::GreenNode::Token { token_index, .. } => {
+            Some(ctx.tokens[*token_index].kind)
+        }
+        mimium_lang::compiler::parser::green::GreenNode::Internal { children, .. } => children
+            .iter()
+            .find_map(|&child| first_token_kind(child, ctx)),
+    }
 }
 
 fn print_block_expr<'a, D, A>(
